@@ -1032,6 +1032,15 @@ func (s *Scope) evalCall(x *ast.CallExpr) SV {
 		need(1)
 		a := s.toInt(s.eval(args[0]), 64, false)
 		return SV{k: kInt, t: e.mc.Read8(s.mem, a)}
+	case "oldmem8":
+		// the byte the pre-state memory holds at an address computed in the
+		// current state
+		need(1)
+		if s.oldMem == nil {
+			s.fail("oldmem8() not available here")
+		}
+		a := s.toInt(s.eval(args[0]), 64, false)
+		return SV{k: kInt, t: e.mc.Read8(s.oldMem, a)}
 	case "le16", "le32", "le64", "be16", "be32", "be64":
 		need(1)
 		a := s.toInt(s.eval(args[0]), 64, false)
